@@ -36,6 +36,7 @@ type chunkQueue struct {
 	chunkAllocated map[uint32]bool            // chunks that have been allocated via Allocate()
 	chunkReturned  map[uint32]bool            // chunks returned via Next()
 	waiters        map[uint32][]chan<- uint32 // signals WaitFor() waiters about chunk arrival
+	rejected       map[p2p.ID]bool            // senders discarded via DiscardSender(), never accepted again
 }
 
 // newChunkQueue creates a new chunk queue for a snapshot, using a temp dir for storage.
@@ -56,6 +57,7 @@ func newChunkQueue(snapshot *snapshot, tempDir string) (*chunkQueue, error) {
 		chunkAllocated: make(map[uint32]bool, snapshot.Chunks),
 		chunkReturned:  make(map[uint32]bool, snapshot.Chunks),
 		waiters:        make(map[uint32][]chan<- uint32),
+		rejected:       make(map[p2p.ID]bool),
 	}, nil
 }
 
@@ -80,6 +82,9 @@ func (q *chunkQueue) Add(chunk *chunk) (bool, error) {
 	}
 	if q.chunkFiles[chunk.Index] != "" {
 		return false, nil
+	}
+	if q.rejected[chunk.Sender] {
+		return false, nil // late chunk from a sender that was rejected in the meantime
 	}
 
 	path := filepath.Join(q.dir, strconv.FormatUint(uint64(chunk.Index), 10))
@@ -169,11 +174,15 @@ func (q *chunkQueue) discard(index uint32) error {
 	return nil
 }
 
-// DiscardSender discards all *unreturned* chunks from a given sender. If the caller wants to
-// discard already returned chunks, this can be done via Discard().
+// DiscardSender discards all *unreturned* chunks from a given sender, and ignores any chunks
+// that arrive from it later. If the caller wants to discard already returned chunks, this can
+// be done via Discard().
 func (q *chunkQueue) DiscardSender(peerID p2p.ID) error {
 	q.Lock()
 	defer q.Unlock()
+	if q.rejected != nil {
+		q.rejected[peerID] = true
+	}
 
 	for index, sender := range q.chunkSenders {
 		if sender == peerID && !q.chunkReturned[index] {
